@@ -1,0 +1,21 @@
+//go:build verif
+
+package compact
+
+import (
+	"diagonal.works/b6"
+)
+
+// Verification hooks, only built with -tags verif.
+
+// VerifBucketBitsForCount exposes the number of hash map bucket bits the
+// builder uses for a block of count features.
+func VerifBucketBitsForCount(count uint64) int {
+	return bucketBitsForCount(count)
+}
+
+// VerifTagBits exposes the number of hash map tag bits the builder uses for
+// blocks of the given feature type.
+func VerifTagBits(t b6.FeatureType) int {
+	return tagBits[t]
+}
